@@ -106,6 +106,7 @@ type Fake struct {
 	// net mode: data listener and the most recently accepted data connection (the backend dials before it opens)
 	dlis       net.Listener
 	pendingTCP net.Conn
+	PingHang   int32 // net mode: pings are left unanswered (atomic)
 }
 
 // Conn is one attachment of a fake to the controller (what Factory.Create returns).
@@ -634,6 +635,10 @@ func (f *Fake) startHTTP() error {
 	f.lis = l
 	mux := http.NewServeMux()
 	mux.HandleFunc("/ping", func(w http.ResponseWriter, r *http.Request) {
+		if r.Method != "GET" {
+			w.WriteHeader(405) // the replica's router offers /ping for GET only
+			return
+		}
 		f.mu.Lock()
 		alive := f.Alive
 		f.mu.Unlock()
